@@ -49,9 +49,10 @@ def _scan_digits(data, i, n):
     return j
 
 
-def decode_ex(data, strict=True, int_keys=False):
+def decode_ex(data, strict=True, int_keys=False, dup='last'):
     """-> (value, end_index, quirks:set).  Raises BencodeError on structural failure (and, in
-    strict mode, on any quirk).  Trailing bytes are reported as quirk 'trailing-bytes'."""
+    strict mode, on any quirk).  Trailing bytes are reported as quirk 'trailing-bytes'.
+    dup: which value a duplicated dictionary key keeps in lenient mode ('last' or 'first')."""
     if not isinstance(data, (bytes, bytearray)):
         raise TypeError('bytes expected')
     data = bytes(data)
@@ -166,7 +167,8 @@ def decode_ex(data, strict=True, int_keys=False):
                         top.last_key = val
                         top.have_key = True
                     else:
-                        top.items[top.key] = val
+                        if dup == 'last' or top.key not in top.items:
+                            top.items[top.key] = val
                         top.have_key = False
                 else:
                     top.append(val)
@@ -301,6 +303,7 @@ def self_check():
             raise AssertionError(('strict accepted', raw))
         got, _, q = decode_ex(raw, strict=False)
         assert got == val and q, (raw, got, q)
+    assert decode_ex(b'd1:ai1e1:ai2ee', strict=False, dup='first')[0] == {b'a': 1}
     for raw in VECTORS_BROKEN:
         for strict in (True, False):
             for ik in (False,):
